@@ -84,4 +84,5 @@ theorem legacy_accepts_out_of_range :
 theorem repaired_rejects_it : (bitUnpack .checked (7 :: List.replicate 95 0) 2 2).toOption = some none := by
   decide +kernel
 
+
 end Fips204.Props.C10
